@@ -16,7 +16,7 @@ shift expression changed (it is compared verbatim), an explicit length clamped â
 generated definition and this file stops checking.  `u8`/`u128` are `Nat` here: that the values stay
 in range is `nr_fits_u128` below and `validated_arith_total` (Props/C16.lean).
 -/
-import KrillModel.Generated.PureFns
+import KrillModel.Generated.PureFnsC16
 import KrillModel.Input.Checked
 namespace KM.Props.C16SrcFns
 open KM.Bgp KM.Input
